@@ -225,6 +225,56 @@ func checkFetchBatches(c *core.Ctx) {
 		}
 	}
 	c.Min("C13-R2", nq, 1, "FilterLogs calls")
+	// what is packed and delivered is the FILTERED slice: every element was appended under ¬log.Removed
+	for _, s := range callsIn(f, ecN+"PackLogs") {
+		var appends []*ssa.Call
+		other := ""
+		seen := map[ssa.Value]bool{}
+		var walk func(v ssa.Value)
+		walk = func(v ssa.Value) {
+			if seen[v] {
+				return
+			}
+			seen[v] = true
+			switch x := v.(type) {
+			case *ssa.Phi:
+				for _, e := range x.Edges {
+					walk(e)
+				}
+			case *ssa.MakeSlice:
+			case *ssa.Slice:
+				walk(x.X)
+			case *ssa.Alloc:
+			case *ssa.Call:
+				if b, ok := x.Call.Value.(*ssa.Builtin); ok && b.Name() == "append" {
+					appends = append(appends, x)
+					walk(x.Call.Args[0])
+					return
+				}
+				// a private helper that builds the slice (e.g. an extracted filter loop): follow what it returns
+				if h := x.Call.StaticCallee(); h != nil && len(h.Blocks) > 0 && h.Pkg == f.Pkg && h.Object() != nil && !h.Object().Exported() {
+					for _, hb := range h.Blocks {
+						if r, ok := hb.Instrs[len(hb.Instrs)-1].(*ssa.Return); ok && len(r.Results) == 1 {
+							walk(r.Results[0])
+						}
+					}
+					return
+				}
+				other = a.D.D(x).String()
+			default:
+				other = a.D.D(v).String()
+			}
+		}
+		walk(s.Instr.Common().Args[0])
+		ok := other == "" && len(appends) > 0
+		for _, ap := range appends {
+			if _, notRemoved := c.E.Analyze(ap.Parent()).FactsAt(ap).Has("F(*[_].Removed)"); !notRemoved {
+				ok = false
+			}
+		}
+		c.Decide(ok, "C13-R2", "fetchLogsInBatches|only non-removed logs are packed", c.P.Pos(s.Instr.Pos()), fmt.Sprintf("%d append site(s), each under ¬Removed", len(appends)),
+			"the slice handed to PackLogs is not built exclusively from logs appended under !log.Removed ("+clip(other)+"): removed logs reach the event handler")
+	}
 	// the sends
 	nEmpty, nPacked, nErr := 0, 0, 0
 	for _, b := range f.Blocks {
